@@ -179,6 +179,20 @@ def check_escape(ctx, prog):
     ctx.analysed(np_)
     ok = any(e.get('k') == 'call' and (e.get('pq') or '') == 'asl::XdlEncoder::new_string' for e in fn_exprs(np_))
     ctx.check(ok, 'C05.escape', np_['pq'], 'new_property:JSON keys escaped like strings', fwhere(np_), 'new_string(name)', 'JSON object keys are not written through the string escaper')
+    # ... on every JSON path: the name reaches the output unescaped only where the mode is not JSON (XDL identifiers)
+    g_ = q.Guarded(np_)
+    pid_ = np_['params'][0]['id']
+    raw = []
+    for e in fn_exprs(np_):
+        if e.get('k') == 'call' and (e.get('op') in ('<<', '+=') or (e.get('pq') or '').split('::')[-1] in ('append', 'operator<<', 'operator+=')) and \
+                any(strip_lv(a).get('k') == 'var' and strip_lv(a).get('id') == pid_ for a in e.get('a') or []):
+            not_json = any(isinstance(c_, dict) and ((pol is False and strip_lv(c_).get('k') == 'mem' and strip_lv(c_).get('f') == '_json') or
+                                                     (pol is True and strip(c_).get('k') == 'un' and strip(c_).get('op') == '!' and strip_lv(strip(c_)['e']).get('f') == '_json'))
+                           for c_, pol, kind in g_.of(e))
+            if not not_json:
+                raw.append(e)
+    ctx.check(not raw, 'C05.escape', np_['pq'], 'new_property:no JSON path writes the key unescaped', fwhere(np_, raw[0]['l'] if raw else None), 'the raw append of the name is confined to the non-JSON branch',
+              'new_property() appends the key as it is (`%s`) on a path that is not excluded for JSON output: a key with a control character is written raw, which no strict JSON parser accepts' % (pe(raw[0])[:60] if raw else ''))
 
 
 def check_numbers(ctx, prog):
